@@ -1590,6 +1590,7 @@ theorem surplusBid_inv {s s' : State} {app id u : Nat} {amt now : Int} (hL : LIn
     (h : surplusBid s app id u amt now = some s') : LInv s' ∧ CInvD D s' ∧ Delta s s' := by
   unfold surplusBid at h
   split at h; · simp at h
+  split at h; · simp at h
   split at h
   · simp at h; subst h
     exact ⟨hL.frame' rfl rfl rfl rfl, hC.frame' rfl rfl, Delta.of_eq rfl (fun _ => rfl)⟩
@@ -1598,6 +1599,7 @@ theorem surplusBid_inv {s s' : State} {app id u : Nat} {amt now : Int} (hL : LIn
 theorem debtBid_inv {s s' : State} {app id u : Nat} {bid exp now : Int} (hL : LInv s) (hC : CInvD D s)
     (h : debtBid s app id u bid exp now = some s') : LInv s' ∧ CInvD D s' ∧ Delta s s' := by
   unfold debtBid at h
+  split at h; · simp at h
   split at h; · simp at h
   rename_i a _
   split at h; · simp at h
